@@ -3,7 +3,7 @@ scenarios through the Lean model `Rj.run`.  Used by C01 C02 C03 C05 C07 C13 (+C0
 import re
 from .common import X, run_model, run_harness
 
-NAMES = ['a', 'b', 'ab', 'a.b', 'd', 'dd', 'x y', '\u00e9', 'A', 'build', 'builder', 'dist']
+NAMES = ['a', 'b', 'ab', 'a.b', 'd', 'dd', 'x y', '\u00e9', 'A', 'build', 'builder', 'dist', '.config', '1', '-x', '2023', '~t']
 TIMES = [0, 1, 999_999_999, 1_000_000_000, 9_223_372_036_854_775_807, 9_223_372_036_854_775_808, 10_000_000_000_000_000_123, (2**63 - 1) * 10**9 + 999_999_999, 5_000_000_000, 5_000_000_001, 4_999_999_999, 2**33 * 10**9, 13_569_465_600 * 10**9]
 TARGETS = [('N', 'a'), ('N', 'a/b'), ('N', '../x'), ('X', '/abs/t'), ('N', ''), ('X', 'C:\\w'), ('N', 'd/..//e'), ('X', 'a\\b')]
 KINDS = ['F', 'D', 'U']
